@@ -24,6 +24,16 @@ class FakeTaskEx(object):
 UNHASH = {}
 
 
+def esc(k):
+    """context_versioning._version_key_part (repo patch 28; Ctx.esc in the model): a '.' inside a name is escaped"""
+    return k.replace('\\', '\\\\').replace('.', '\\.')
+
+
+def key_str(path):
+    """the version key of a path of names"""
+    return '.'.join(esc(k) for k in path)
+
+
 def learn_paths(published):
     """remember md5(path) -> path for every leaf path of a published dict: the model keeps version
     keys as plain paths, the implementation (hash_version_keys, the default) as their md5; the
@@ -31,8 +41,8 @@ def learn_paths(published):
     path that was ever published stays as it is and shows up as a disagreement."""
     import hashlib
     for v, val in (published or {}).items():
-        for lp in leaf_paths(val, v):
-            UNHASH[hashlib.md5(lp.encode('utf-8')).hexdigest()] = lp
+        for lp in leaf_map(val, (v,)):
+            UNHASH[hashlib.md5(key_str(lp).encode('utf-8')).hexdigest()] = key_str(lp)
 
 
 def canon_ctx(ctx):
@@ -204,13 +214,73 @@ def gen_multi_root(rng):
     return b.tasks
 
 
+def gen_wide_ends(rng):
+    """Motif: MANY END TASKS (a wide fork that no join closes, plus leaves at independent roots): the workflow's
+    final context is folded over them batch by batch.  A variable is published before the fork, republished
+    along one branch (twice), merely inherited by the other leaves; every leaf also publishes a variable of its
+    own (scalar or nested) that only the workflow output can show."""
+    b = _B(rng)
+    v = rng.choice(VARS[:3])
+    skel = rng.choice(SKELETONS)
+    root = b.add([], {v: fill(rng, skel, 'r')})
+    root = b.chain(root, rng.choice([0, 0, 1]))
+    n = rng.randint(3, 7)
+    special = rng.randrange(n)
+    for i in range(n):
+        own = {'w%d' % i: fill(rng, rng.choice(SKELETONS), 'e%d' % i)} if rng.random() < 0.8 else {}
+        cur = root
+        if i == special:
+            cur = b.add([cur], {v: fill(rng, skel, 'p')})
+            if rng.random() < 0.5:
+                cur = b.add([b.chain(cur, rng.choice([0, 1]), noise=False)], {v: fill(rng, skel, 'q')})
+            if rng.random() < 0.5:
+                b.add([cur], own)       # the latest publisher is not itself an end task
+                continue
+            b.tasks[-1]['published'].update(own)
+            continue
+        cur = b.chain(cur, rng.choice([0, 0, 1]), noise=False)
+        b.add([cur], own)
+    for i in range(rng.choice([0, 0, 1, 2])):
+        b.add([], {'z%d' % i: fill(rng, None, 'o%d' % i)})
+    return b.tasks
+
+
+def gen_dotted(rng):
+    """Motif: a variable whose NAME contains a dot next to a dictionary with that path: `v` = {k: ..} and the
+    top-level variable "v.k" (shape-stable: no finding-G republication in these histories).  Before repo patch 28 both had the version key
+    "v.k": publishing one bumped the version of the other.  One branch publishes the dotted variable, a sibling
+    republishes the dictionary, others inherit; two or three chained joins."""
+    b = _B(rng)
+    v = rng.choice(VARS[:3])
+    deep = rng.random() < 0.4
+    skel = {'k': {'m': None}, 'n': None} if deep else {'k': None, 'n': None}
+    dotted = v + '.k'
+    root = b.add([], {v: fill(rng, skel, 'r')})
+    root = b.chain(root, rng.choice([0, 1]), noise=False)
+    a = b.add([b.chain(root, rng.choice([0, 1]), noise=False)],
+              {dotted: fill(rng, {'m': None} if deep else None, 'a')})
+    if rng.random() < 0.4:
+        a = b.add([a], {dotted: fill(rng, {'m': None} if deep else None, 'a2')})
+    sib = b.add([b.chain(root, rng.choice([0, 1]), noise=False)],
+                {v: fill(rng, skel, 'b')})
+    inh = [b.chain(root, rng.choice([1, 2]), noise=False) for _ in range(rng.choice([1, 2]))]
+    j = b.add([a, sib])
+    for e in inh:
+        j = b.add([b.chain(j, rng.choice([0, 1]), noise=False), e])
+    return b.tasks
+
+
 def gen_history(rng, n=None):
     r = rng.random()
-    if n is not None or r < 0.5:
+    if n is not None or r < 0.42:
         return gen_random(rng, n)
-    if r < 0.78:
+    if r < 0.64:
         return gen_fork_nested(rng)
-    return gen_multi_root(rng)
+    if r < 0.80:
+        return gen_multi_root(rng)
+    if r < 0.95:
+        return gen_wide_ends(rng)
+    return gen_dotted(rng)
 
 
 def run_history(ctx, hist, hashed):
@@ -269,6 +339,7 @@ def run_history(ctx, hist, hashed):
             ctx.count('ctx', 'order-dependent:' + ('conflict' if conflict else 'NO-CONFLICT'))
             if not conflict:
                 sig = ({'kind': 'versioning-value-shape-change'} if shape_change(hist)
+                       else {'kind': 'version-key-collision'} if key_collision(hist)
                        else {'kind': 'order-dependent-merge'})
                 ctx.violation('upstream context depends on the order rows are listed although no '
                               'two concurrent branches publish the same variable',
@@ -297,9 +368,109 @@ def run_history(ctx, hist, hashed):
         outb[t['name']] = copy.deepcopy(real_out)
         # ---- C05 monitor: latest causal publisher wins
         check_latest(ctx, hist, t, in_ctx)
-    cfg.CONF.clear_override('hash_version_keys', group='context_versioning')
     tie_history(ctx, drv, hist, causal, inb, outb)
+    tie_final(ctx, drv, hist, inb, outb)
+    cfg.CONF.clear_override('hash_version_keys', group='context_versioning')
     return inb
+
+
+class _StubWfEx(object):
+    root_execution_id = None
+
+    def __init__(self, env, context, input_):
+        self.params = {'env': env}
+        self.context = context
+        self.input = input_
+
+
+def end_tasks(hist):
+    return [t['name'] for t in hist if not any(t['name'] in c['parents'] for c in hist)]
+
+
+def final_plan(hist):
+    """the order in which the database lists the end tasks and the batch size: a deterministic function of the
+    history (replays reproduce it)"""
+    import random
+    r = random.Random(json.dumps(hist, sort_keys=True, default=str))
+    ends = end_tasks(hist)
+    r.shuffle(ends)
+    return ends, r.choice([1, 2, 2, 3, 3, 4, 20])
+
+
+def real_final_context(ends, size, inb, hist):
+    """the REAL DirectWorkflowController.evaluate_workflow_final_context (and through it the real
+    evaluate_upstream_context with `additive_context`); only the database read is replaced: the rows come in
+    slices of `size` as get_completed_task_executions_as_batches yields them (20 in the code)"""
+    from mistral.workflow import direct_workflow
+    ctrl = object.__new__(direct_workflow.DirectWorkflowController)
+    rows = [FakeTaskEx(e, copy.deepcopy(inb[e]), copy.deepcopy(hist_pub(hist, e))) for e in ends]
+    ctrl._find_end_task_executions_as_batches = lambda: (rows[i:i + size] for i in range(0, len(rows), size))
+    return ctrl.evaluate_workflow_final_context()
+
+
+def tie_final(ctx, drv, hist, inb, outb):
+    """Stream `final`: "... visible to a task AND TO THE WORKFLOW OUTPUT".  The real final context over the end
+    tasks of the history, read in batches of 1..4 or 20 rows in a shuffled order, vs Hist.finalContext; the real
+    evaluate_workflow_output vs Hist.workflowOutput; monitors: the final context is what a join of ALL the end
+    tasks would see (leaf-granular causal monitor on a virtual task whose parents are the end tasks), every
+    leaf published by an end task is in the output, and another batch size shows the same."""
+    from mistral.workflow import data_flow
+    ends, size = final_plan(hist)
+    real = real_final_context(ends, size, inb, hist)
+    outs = [canon_ctx(outb[e]) for e in ends]
+    mo = drv.call('ctx.final', {'outs': outs, 'batch': size})
+    io = canon_ctx(real) if real else {'data': {}, 'vers': {}}
+    io['data'].pop('__task_execution', None)
+    ctx.evaluated('final', [outs, size], nontrivial=len(ends) > size)
+    ctx.count('final', 'ends:%d,batches:%d' % (min(len(ends), 8), min(-(-len(ends) // size), 4)))
+    replay = {'history': hist, 'final': True, 'ends': ends, 'batch': size}
+    if norm(mo) != norm(io):
+        ctx.disagree('final', {'fn': 'final', 'outs': outs, 'batch': size}, mo, io)
+    # ---- monitor: the final context = what a join of all the end tasks would see
+    virt = hist + [{'name': '<workflow output>', 'parents': list(ends), 'published': {}}]
+    causal = Causal(virt)
+    check_leaves(ctx, 'final', causal, '<workflow output>', io['data'], replay)
+    # ---- workflow output: default (whole final context) and variable references
+    env, wctx, inp = {'x': 'env'}, {'w0': 'var', VARS[1]: 'wfvar'}, {VARS[0]: 'input', VARS[1]: 'input', 'x': 'in'}
+    wf_ex = _StubWfEx(env, wctx, inp)
+    layers = [{'__env': env}, wctx, inp]
+    final_model = {'data': io['data'], 'vers': io['vers']}
+    for spec in ({}, {'o0': VARS[0], 'o1': VARS[1]}, {'o0': 'x'}):
+        try:
+            out = data_flow.evaluate_workflow_output(wf_ex, {o: '<% $.' + v + ' %>' for o, v in spec.items()},
+                                                     copy.deepcopy(real) if real else {})
+        except Exception as e:
+            out = 'error'
+        if isinstance(out, dict):
+            out = {k: v for k, v in out.items() if k != '__task_execution'}
+        mo2 = drv.call('ctx.output', {'spec': [[o, v] for o, v in sorted(spec.items())], 'final': final_model,
+                                      'layers': layers})
+        ctx.evaluated('final', ['output', final_model, sorted(spec.items())], nontrivial=bool(spec))
+        if norm(mo2) != norm(out):
+            ctx.disagree('final', {'fn': 'output', 'spec': spec, 'final': final_model}, mo2, out)
+        if not spec and isinstance(out, dict):
+            # ---- monitor: every leaf published by an end task is in the output (an end task has no successor, so
+            # nothing overrides it causally; a concurrent publisher of the same leaf may win, a leaf never vanishes)
+            for e in ends:
+                for v, leaves in causal.leaves[e].items():
+                    others = [a for a in causal.anc['<workflow output>'] if v in causal.leaves[a]]
+                    for p in leaves:
+                        if any(p not in causal.leaves[a][v] for a in others):
+                            continue        # the variable is also published with another shape: check_leaves decides
+                        if lookup(out, p)[0] != 'leaf':
+                            ctx.violation('end task %s published %s, the workflow output does not have it' % (e, '.'.join(p)),
+                                          dict(replay, leaf=list(p), end_task=e),
+                                          {'kind': 'end-task-publication-missing-from-output'})
+    # ---- monitor: batch-size independence (when no two concurrent end branches publish the same variable)
+    if len(ends) > 1 and not conflicting(virt, virt[-1]):
+        other = real_final_context(ends, 20 if size != 20 else 2, inb, hist)
+        oo = canon_ctx(other) if other else {'data': {}, 'vers': {}}
+        oo['data'].pop('__task_execution', None)
+        if norm(oo) != norm(io):
+            sig = ({'kind': 'versioning-value-shape-change'} if shape_change(hist)
+                   else {'kind': 'version-key-collision'} if key_collision(hist)
+                   else {'kind': 'final-context-depends-on-batch-size'})
+            ctx.violation('the final context depends on the batch size of the database reads', replay, sig)
 
 
 def tie_history(ctx, drv, hist, causal, inb, outb):
@@ -324,7 +495,7 @@ def tie_history(ctx, drv, hist, causal, inb, outb):
             paths |= set(causal.leaves[t['name']][v])
     for p in sorted(paths):
         mine = all(p in causal.leaves[t['name']][p[0]] for t in hist if p[0] in t['published']) and \
-            not any('.'.join(q) == '.'.join(p) and q != p for t in hist for v in causal.leaves[t['name']]
+            not any(key_str(q) == key_str(p) and q != p for t in hist for v in causal.leaves[t['name']]
                     for q in causal.leaves[t['name']][v])
         lean = drv.call('ctx.stable', {'tasks': tasks, 'var': p[0], 'rest': list(p[1:])})
         ctx.evaluated('hist', ['stable', tasks, list(p)], nontrivial=True)
@@ -336,10 +507,10 @@ def tie_history(ctx, drv, hist, causal, inb, outb):
         # the REAL inbound contexts here, decided on the model run by Lean
         pubs = [t for t in hist if p[0] in t['published']]
         spine = not any(clashes(t['published'][p[0]], p[1:]) for t in pubs) and \
-            not any('.'.join(q) == '.'.join(p) and q != p for t in hist for v in causal.leaves[t['name']]
+            not any(key_str(q) == key_str(p) and q != p for t in hist for v in causal.leaves[t['name']]
                     for q in causal.leaves[t['name']][v])
         drops = [t for t in pubs if lookup(t['published'], p)[0] == 'absent']      # as Hist.Drops
-        low = all(canon_ctx(inb[t['name']] or {})['vers'].get('.'.join(p), 0) <= 1 for t in drops)
+        low = all(canon_ctx(inb[t['name']] or {})['vers'].get(key_str(p), 0) <= 1 for t in drops)
         lean2 = drv.call('ctx.stable2', {'tasks': tasks, 'var': p[0], 'rest': list(p[1:])})
         ctx.evaluated('hist', ['stable2', tasks, list(p)], nontrivial=bool(drops))
         if not lean:
@@ -499,6 +670,18 @@ def leaf_paths(val, pre=''):
     return frozenset([pre])
 
 
+def key_collision(hist):
+    """two different leaf paths of the history that the UNREPAIRED code keys alike (names joined by '.' as they
+    are): the precondition of the dotted-name defect (repo patch 28)"""
+    seen = {}
+    for t in hist:
+        for v, val in (t['published'] or {}).items():
+            for p in leaf_map(val, (v,)):
+                if seen.setdefault('.'.join(p), p) != p:
+                    return True
+    return False
+
+
 def shape_change(hist):
     """does some variable get published with two different leaf-path sets (scalar vs dict, or dicts
     with different nested keys)?  The versioning scheme keys versions by the leaf paths of the NEW
@@ -532,6 +715,7 @@ def check_latest(ctx, hist, t, in_ctx):
             # (finding G is about MERGES: with no join at or above the task a wrong value is never G)
             merged = any(len(by[a]['parents']) >= 2 for a in anc | {t['name']})
             sig = ({'kind': 'versioning-value-shape-change'} if shape_change(hist) and merged
+                   else {'kind': 'version-key-collision'} if key_collision(hist) and merged
                    else {'kind': 'stale-value'})
             ctx.violation('a task does not see the value of the causally latest publisher',
                           {'history': hist, 'task': t['name'], 'var': v, 'expected': exp, 'got': got}, sig)
@@ -605,6 +789,7 @@ class Causal(object):
             self.anc[t['name']] = a
         self.leaves = {t['name']: {v: leaf_map(val, (v,)) for v, val in (t['published'] or {}).items()}
                        for t in hist}
+        self.collision = key_collision(hist)
 
     def before(self, a, b):
         """a is b or a strict causal ancestor of b"""
@@ -673,6 +858,8 @@ def check_leaves(ctx, stream, causal, tname, data, replay, inputs=None):
                             'republication of another shape' % ('.'.join(p), tname, kind, M))
                     clash = any(clashes(causal.by[d]['published'][v], p[1:]) for d in SC)
                     sig = {'kind': 'versioning-value-shape-change'} if merged and clash else {'kind': 'leaf-lost'}
+            if merged and causal.collision and sig['kind'] != 'versioning-value-shape-change':
+                sig = {'kind': 'version-key-collision'}
             ctx.count(stream, 'leaf-monitor-hit:' + sig['kind'])
             ctx.violation(what, dict(replay, leaf=list(p), visible=[kind, x], publishers=sorted(P),
                                      maximal=sorted(M), other_shape=sorted(SC)), sig)
